@@ -35,6 +35,7 @@ type Kind struct {
 	StatusSub                      bool
 	StoreKey                       string // non-empty: objects of this kind live in a store of their own (default: one store per group+resource, shared by all served versions)
 	ScaleSub                       bool   // discovery also lists <resource>/scale, after <resource>/status as apiextensions does (not served)
+	NoGeneration                   bool   // the server does not maintain metadata.generation for this kind (as for several built-in kinds)
 }
 
 func (k *Kind) APIVersion() string {
@@ -234,6 +235,9 @@ func (s *Server) Seed(obj map[string]interface{}) string {
 		panic("sim.Seed: no namespace on namespaced object")
 	}
 	s.stamp(u, true)
+	if k.NoGeneration {
+		unstructured.RemoveNestedField(o, "metadata", "generation")
+	}
 	s.objs[objKey(k, u.GetNamespace(), u.GetName())] = o
 	return string(u.GetUID())
 }
@@ -356,6 +360,9 @@ func (s *Server) SeedLocked(obj map[string]interface{}) {
 	u := &unstructured.Unstructured{Object: o}
 	k := s.KindByKind(u.GetAPIVersion(), u.GetKind())
 	s.stamp(u, true)
+	if k.NoGeneration {
+		unstructured.RemoveNestedField(o, "metadata", "generation")
+	}
 	s.objs[objKey(k, u.GetNamespace(), u.GetName())] = o
 }
 
@@ -980,6 +987,9 @@ func (s *Server) create(r *Request, body map[string]interface{}) interface{} {
 		return s.fail(r, 422, "Invalid", errs.ToAggregate().Error())
 	}
 	s.stamp(u, true)
+	if k.NoGeneration {
+		unstructured.RemoveNestedField(o, "metadata", "generation")
+	}
 	s.objs[key] = o
 	r.Code = 201
 	return runtime.DeepCopyJSON(o)
@@ -1005,6 +1015,9 @@ func (s *Server) commitUpdate(k *Kind, key string, old, n map[string]interface{}
 		nu.SetGeneration(ou.GetGeneration() + 1)
 	} else {
 		nu.SetGeneration(ou.GetGeneration())
+	}
+	if k.NoGeneration {
+		unstructured.RemoveNestedField(n, "metadata", "generation")
 	}
 	if reflect.DeepEqual(old, n) {
 		return old // no-op: no resourceVersion bump, no event
